@@ -28,6 +28,42 @@ func checkEchoKeepsRest(c *Ctx, r *Report, read *ssa.Function) {
 		}
 	})
 	if len(splits) == 0 {
+		// second idiom: loc := delim.FindIndex(b); b = b[loc[1]:]  (first match; keep everything behind it)
+		var cuts []*ssa.Slice
+		allInstrs(read, func(in ssa.Instruction) {
+			sl, ok := in.(*ssa.Slice)
+			if !ok || sl.High != nil || sl.Low == nil {
+				return
+			}
+			u, ok := sl.Low.(*ssa.UnOp)
+			if !ok {
+				return
+			}
+			ia, ok := u.X.(*ssa.IndexAddr)
+			if !ok {
+				return
+			}
+			call, ok := ia.X.(*ssa.Call)
+			if !ok {
+				return
+			}
+			if o := CalleeObj(call); o == nil || o.Pkg() == nil || o.Pkg().Path() != "regexp" || (o.Name() != "FindIndex" && o.Name() != "FindStringIndex") {
+				return
+			}
+			cuts = append(cuts, sl)
+		})
+		for i, sl := range cuts {
+			construct := fmt.Sprintf("echo cut #%d in %s", i+1, shortFn(read))
+			ia := sl.Low.(*ssa.UnOp).X.(*ssa.IndexAddr)
+			if k, ok := constInt(ia.Index); ok && k == 1 {
+				r.OK(rule, construct, c.Pos(sl.Pos()), "b[loc[1]:] with loc the first delimiter match: only the bytes up to the first delimiter are dropped")
+			} else {
+				r.Bad(rule, construct, c.Pos(sl.Pos()), "the buffer is not cut at the END of the first delimiter match (loc[1]): the delimiter itself stays in front of what follows, or more than the echo is dropped")
+			}
+		}
+		if len(cuts) > 0 {
+			return
+		}
 		r.Unk(rule, "echo branch of the NETCONF reader", c.Pos(read.Pos()), "no split on the delimiter found: the idiom by which the reader drops its echoed request is not one the rule knows")
 		return
 	}
